@@ -347,7 +347,11 @@ where
                     Ok(message) => message,
                     Err(err) => {
                         *this.close = true;
-                        return Poll::Ready(Some(WsMessage::Close(1002, err.to_string())));
+                        let code = match this.protocol {
+                            Protocols::SubscriptionsTransportWS => 1002,
+                            Protocols::GraphQLWS => 4400,
+                        };
+                        return Poll::Ready(Some(WsMessage::Close(code, err.to_string())));
                     }
                 };
 
